@@ -66,6 +66,9 @@ def c18_block(start, stop, *, prop, tier, base_seed, avoid_patterns=(), known_pa
         agg.fault_fired["F-preempt/lock-op-or-pause"] = \
             agg.fault_fired.get("F-preempt/lock-op-or-pause", 0) + r.switches
         agg.fault_fired["F-preempt/line"] = agg.fault_fired.get("F-preempt/line", 0) + r.line_yields
+        agg.fault_fired["F-io-slow-write"] = agg.fault_fired.get("F-io-slow-write", 0) + r.io_stalls
+        x["clear_and_rebuild_transactions"] = x.get("clear_and_rebuild_transactions", 0) \
+            + r.cleared_in_cs
         agg.steps += r.decisions
         if r.commits >= 1 and r.reads_done >= 1 and r.reads_while_writer_in_cs + r.reader_blocked > 0:
             agg.run_digests_nontrivial.add(r.digest)
@@ -127,7 +130,8 @@ def minimise(rec, sig, nt, avoid):
 
     cfg = dict(rec["cfg"])
     tests = 0
-    simpler = [("p_fault", 0.0), ("stall_prob", 0.0), ("p_nested", 0.0), ("p_line", 0.0)]
+    simpler = [("p_fault", 0.0), ("stall_prob", 0.0), ("p_nested", 0.0), ("p_line", 0.0),
+               ("p_io", 0.0), ("p_clear", 0.0)]
     for k, v in simpler:
         if cfg.get(k) != v:
             c2 = dict(cfg)
@@ -257,6 +261,7 @@ def run(prop, spec, argv) -> int:
             "reader_blocked_on_lock": x.get("lock_contentions", 0),
             "line_preemptions": x.get("line_preemptions", 0),
             "typed_tree_runs": x.get("typed_runs", 0),
+            "clear_and_rebuild_transactions": x.get("clear_and_rebuild_transactions", 0),
             "liveness_checked_runs": x.get("liveness_checked", 0),
         },
         "max_concurrent_waiters": x.get("max_concurrent_waiters", 0),
